@@ -312,6 +312,129 @@ def cumulative_shape(size, ntasks):
     return Shape(name, build, obligations)
 
 
+# --- (f) measurements never exclude a schedule ----------------------------------------------------
+# An indicator or an objective only measures: every schedule that is valid without it stays valid with it
+# (its value and its private auxiliaries - sorted copies, maxima - are existential).
+def _measure(P, what, res, tis):
+    if what == "utilization":
+        return ps.IndicatorResourceUtilization(resource=res)
+    if what == "nb_tasks_assigned":
+        return ps.IndicatorNumberTasksAssigned(resource=res)
+    if what == "idle":
+        return ps.IndicatorResourceIdle(resource=res)
+    if what == "cost":
+        return ps.IndicatorResourceCost(list_of_resources=[res])
+    if what == "flowtime_single_resource":
+        return ps.ObjectiveMinimizeFlowtimeSingleResource(resource=res)
+    if what == "due_dates":
+        return [ps.IndicatorTardiness(), ps.IndicatorEarliness(), ps.IndicatorNumberOfTardyTasks(), ps.IndicatorMaximumLateness()]
+    if what == "objectives_sum":
+        return [ps.ObjectiveMinimizeFlowtime(), ps.ObjectivePriorities(), ps.ObjectiveTasksStartEarliest(), ps.ObjectiveMinimizeMakespan()]
+    if what == "objectives_extrema":
+        return [ps.ObjectiveTasksStartLatest(), ps.ObjectiveMinimizeGreatestStartTime()]
+    if what == "resource_cost_objective":
+        return ps.ObjectiveMinimizeResourceCost(list_of_resources=[res])
+    raise ValueError(what)
+
+
+MEASURES = ["utilization", "nb_tasks_assigned", "idle", "cost", "flowtime_single_resource", "due_dates", "objectives_sum",
+            "objectives_extrema", "resource_cost_objective"]
+
+
+def measurement_shape(what, how, kinds, optmask, leave_out=None):
+    name = f"measurement/{what}/{how}/{'+'.join(kinds)}/opt{''.join(str(int(b)) for b in optmask)}"
+    if leave_out is not None:
+        name += f"/task{leave_out}_left_unscheduled"
+
+    def build(P):
+        pb, hv = new_problem(P, True)
+        due = "soft" if what == "due_dates" else None
+        tis = []
+        for i, k in enumerate(kinds):
+            kw = dict(optional=optmask[i], due=due, priority=(what in ("due_dates", "objectives_sum")))
+            tis.append(make_task(P, "ABCD"[i], "var", vmin=True, vmax=True, **kw) if k == "var" else make_task(P, "ABCD"[i], k, **kw))
+        cost = ps.LinearFunction(slope=1, intercept=2) if what in ("cost", "resource_cost_objective") else None
+        ckw = {"cost": cost} if cost is not None and how != "cumulative" else {}
+        if how == "cumulative":
+            res = ps.CumulativeWorker(name="CW", size=2, **({"cost": ps.ConstantFunction(value=3)} if cost is not None else {}))
+        else:
+            res = ps.Worker(name="W", **ckw)
+        for t in tis:
+            t.obj.add_required_resource(res)
+        _measure(P, what, res, tis)
+        return Ctx(problem=pb, tis=tis, horizon=hv)
+
+    def obligations(ctx):
+        tis, H = ctx.tis, ctx.problem._horizon
+        rest = [t for i, t in enumerate(tis) if i != leave_out]
+        cl = [base_valid(rest, H, ctx.horizon), H >= 0]
+        if leave_out is not None:
+            cl.append(Not(tis[leave_out].sched))
+        if how == "worker":
+            for a, b in itertools.combinations(rest, 2):
+                cl.append(Or(a.e <= b.s, b.e <= a.s))
+        else:  # size 2: no three tasks share an instant (a zero-length task counts at its instant: closed comparison)
+            def touch(x, y):
+                return z3.If(And(x.e > x.s, y.e > y.s), And(x.s < y.e, y.s < x.e), And(x.s <= y.e, y.s <= x.e))
+            for grp in itertools.combinations(rest, 3):
+                cl.append(Not(And([touch(x, y) for x, y in itertools.combinations(grp, 2)])))
+        observables = [o for t in rest for o in t.observables()] + [H]
+        if leave_out is not None:
+            observables.append(tis[leave_out].obj._scheduled)
+        return [Ob(f"{PROP}/{name}/schedule_still_admitted", "complete", valid=And(cl), observables=observables)]
+
+    sh = Shape(name, build, obligations)
+    if what == "due_dates":
+        sh.assumptions = lambda P: [P.v(f"{'ABCD'[i]}_due") >= 0 for i in range(len(kinds))]
+    return sh
+
+
+# --- (g) order-based rules with equal dates ------------------------------------------------------
+# Zero-length tasks make two dates of a resource (or of a contiguous list) equal. A schedule in which the intervals
+# can be put in an order where each one ends no later than the next one starts, every consecutive gap satisfying the
+# rule, is valid beyond dispute.
+def chain(intervals, rel):
+    alts = []
+    for perm in itertools.permutations(range(len(intervals))):
+        alts.append(And([And(intervals[perm[k]][1] <= intervals[perm[k + 1]][0], rel(intervals[perm[k + 1]][0] - intervals[perm[k]][1]))
+                         for k in range(len(perm) - 1)]))
+    return Or(alts)
+
+
+TIE_RULES = {
+    "TasksContiguous": (None, lambda P: (lambda gap: gap == 0)),
+    "ResourceNonDelay": (lambda P, w: ps.ResourceNonDelay(name="rc", resource=w), lambda P: (lambda gap: gap == 0)),
+    "ResourceTasksDistance_exact": (lambda P, w: ps.ResourceTasksDistance(name="rc", resource=w, distance=P.int("r_dist", ph=2), mode="exact"), lambda P: (lambda gap: gap == P.v("r_dist"))),
+    "ResourceTasksDistance_min": (lambda P, w: ps.ResourceTasksDistance(name="rc", resource=w, distance=P.int("r_dist", ph=2), mode="min"), lambda P: (lambda gap: gap >= P.v("r_dist"))),
+    "ResourceTasksDistance_max": (lambda P, w: ps.ResourceTasksDistance(name="rc", resource=w, distance=P.int("r_dist", ph=2), mode="max"), lambda P: (lambda gap: gap <= P.v("r_dist"))),
+}
+
+
+def ties_shape(rule, kinds):
+    name = f"equal_dates/{rule}/{'+'.join(kinds)}"
+    mk, rel = TIE_RULES[rule]
+
+    def build(P):
+        pb, hv = new_problem(P, True)
+        tis = [_task(P, "ABCD"[i], k, False) for i, k in enumerate(kinds)]
+        if mk is None:
+            ps.TasksContiguous(name="cst", list_of_tasks=[t.obj for t in tis])
+        else:
+            w = ps.Worker(name="W")
+            for t in tis:
+                t.obj.add_required_resource(w)
+            mk(P, w)
+        return Ctx(problem=pb, tis=tis, horizon=hv)
+
+    def obligations(ctx):
+        tis, H = ctx.tis, ctx.problem._horizon
+        valid = And(base_valid(tis, H, ctx.horizon), chain([(t.s, t.e) for t in tis], rel(ctx.P)))
+        observables = [o for t in tis for o in t.observables()] + [H]
+        return [Ob(f"{PROP}/{name}/chained_schedule_admitted", "complete", valid=valid, observables=observables)]
+
+    return Shape(name, build, obligations)
+
+
 # --- (d) buffers -----------------------------------------------------------------------------------
 def buffer_valid(ctx):
     acc = ctx.accesses
@@ -422,6 +545,27 @@ def shapes(tier):
                 out.append(select_shape(nw, kind, n))
     for size, nt in ((2, 3), (3, 4)) + (((2, 4),) if thorough else ()):
         out.append(cumulative_shape(size, nt))
+    for rule in TIE_RULES:
+        for kinds in [("fixed", "zero"), ("zero", "zero"), ("fixed", "zero", "var")] + ([("zero", "fixed", "zero"), ("var", "var")] if thorough else []):
+            out.append(ties_shape(rule, kinds))
+    if thorough:
+        out.append(ties_shape("ResourceNonDelay", ("fixed",)))
+    for what in MEASURES:
+        for how in ("worker", "cumulative"):
+            if what in ("due_dates", "objectives_sum", "objectives_extrema") and how == "cumulative":
+                continue
+            if what in ("idle", "flowtime_single_resource") and how == "cumulative":
+                continue  # both read the resource's own busy intervals, which a cumulative worker does not have: rejected at creation
+            klist = [("fixed", "zero"), ("zero", "zero"), ("var", "fixed", "zero")] + ([("zero", "var", "zero")] if thorough else [])
+            for kinds in klist:
+                n = len(kinds)
+                heavy = how == "cumulative" and what in ("cost", "resource_cost_objective")  # forall over the sub-worker selections times a division: z3 gives up
+                if heavy and n > 2:
+                    continue
+                out.append(measurement_shape(what, how, kinds, (False,) * n))
+                if (len(kinds) == 2 or thorough) and not heavy:
+                    out.append(measurement_shape(what, how, kinds, (True,) * n))
+                    out.append(measurement_shape(what, how, kinds, (True,) + (False,) * (n - 1), leave_out=0))
     return out
 
 
